@@ -1,13 +1,15 @@
 """C05 - no script, data point or peer message can crash the daemon or kill a task (containment half; spec/Containment)."""
+import json
 import os
 import verifylib as V
+from checks import c19  # the UDF peer-fault stage is shared with C19 (same driver, same trace specification)
 
 ASSUME = [
     "partial claim (DESIGN.md C05/§6): decided are the containment protocol of a running pipeline (fault in any node of a 3-node chain at any of 4 moments, next to a bystander task) and the define-never-crashes law over nine enumerated families (token sequences, byte strings up to the length bound alone and in lexer contexts, vars/template/task documents through the HTTP handlers, mutated pipeline/lambda JSON, seeded corpus mutations, line-protocol byte strings through the /write handler into running tasks); byte strings beyond the bound and 'all UDF byte streams' are not decided here",
     "every family of definitions runs in its own child process; a child that dies is reported as a DefineBatch line with panics = 1 naming the input it was processing (read from a shared file mapping)",
     "injected panics use the verif hooks node.run / edge.emit; point errors and node errors use natural triggers (integer division by zero, failing alert id template)",
     "a stop that does not return within 30 s or a pipeline goroutine alive 10 s after the stop is taken as a liveness violation; the scenarios need milliseconds",
-    "UDF peer faults are covered under C19; wrong-type / missing / extreme field values through every node kind under C04, C10, C11 and C01 (there a node killed by a value is a rejected trace)",
+    "UDF peer faults: the peer-fault stage of C19 (driver c19fault, UDFProtoFaultTrace) is run here too and a rejection is reported under C05; wrong-type / missing / extreme field values through every node kind under C04, C10, C11 and C01 (there a node killed by a value is a rejected trace)",
 ]
 
 
@@ -29,12 +31,28 @@ def run(sc, tier, seed):
     val2 = V.validate_traces(sc, "Containment", "ContainmentTrace.tla", "ContainmentTrace.cfg", meta2["trace_files"], parallel=1)
     R.states += val2["states"]
     R.handle_validation(val2, "a definition panicked, hung or leaked goroutines")
+    # messages from a UDF process: the misbehaving-peer alphabet of UDFProto.tla (wrong-kind / duplicate / unsolicited
+    # responses, malformed frames, data faults, the peer dying under Stop, the task-snapshotter path), one child process
+    # per scenario next to a bystander task; shared with C19
+    meta3, val3 = c19.peer_fault_stage(sc, tier, seed)
+    R.add_meta(meta3)
+    R.states += val3["states"]
+    R.handle_validation(val3, "UDF peer: " + c19.PEER_FAULT_WHAT)
     return R.finish("exploration", ASSUME)
 
 
 def replay(sc, path):
     seg = os.path.join(path, "segment.ndjson")
-    val = V.validate_traces(sc, "Containment", "ContainmentTrace.tla", "ContainmentTrace.cfg", [seg], parallel=1)
+    first = {}
+    try:
+        first = json.loads(open(seg).readline())
+    except (ValueError, OSError):
+        pass
+    if first.get("mode") == "fault":
+        # a segment of the shared UDF peer-fault stage
+        val = V.validate_traces(sc, c19.MOD, "UDFProtoTraceMC.tla", "UDFProtoFaultTrace.cfg", [seg], parallel=1)
+    else:
+        val = V.validate_traces(sc, "Containment", "ContainmentTrace.tla", "ContainmentTrace.cfg", [seg], parallel=1)
     if val["accepted"]:
         print("replay: segment is accepted by the current specification")
         return 0
